@@ -234,15 +234,18 @@ harness("C14", args="op: int, c1: int, e1: int, c2: int, e2: int, p1: int, p2: i
         bounds="quick |c| < 10^6, e1 in [-1,1], e2 = 0, log10 pinned, 5 prefix pairs x 3 ops + 5 pairs with a non-prefix exponent sum for *; thorough |c| < 10^12, e in [-3,3], log10 nondeterministic, 7x5 prefix pairs x 3 ops; results needing > 28 digits excluded",
         generalises="both mantissas (coefficient, exponent) as integers", outside="results with more than 28 significant digits; other prefix pairs")(binary_exact)
 
+# operands closer than the 1e-20 comparison tolerance without being identical: 21..23 decimal places
+_NEAR = [(f"near_{_t(a)}_{_t(b)}_e{k}", f"p1 == {a} and p2 == {b} and fr == 0 and e1 == -{k} and e2 == 0 and c2 == {10 ** (a - b)} and {10 ** k} - 40 < c1 < {10 ** k} + 40")
+         for (a, b) in ((0, 0), (3, 0), (24, 24), (-9, -12)) for k in (20, 21, 23)]
 compare_total, _cr = _twins("compare_total", _compare, 7)
 harness("C14", args="c1: int, e1: int, c2: int, e2: int, p1: int, p2: int, fr: int",
         pre=[],
-        tiers={"quick": {"timeout": 150, "pre": ["-100 < c1 < 100", "-100 < c2 < 100"],
-                         "parts": [(f"p{_t(a)}", f"p1 == {a} and fr == 0 and e1 == 0 and e2 == 0 and p2 in (-24, -9, 0, 3, 24)") for a in PVALS]},
-               "thorough": {"timeout": 1500, "pre": ["-10**4 < c1 < 10**4", "-10**4 < c2 < 10**4", "-2 <= e1 <= 2", "-2 <= e2 <= 2"],
-                            "parts": [(f"p{_t(a)}_{_t(b)}", f"p1 == {a} and p2 == {b} and fr == 0") for a in PVALS for b in PVALS]}},
+        tiers={"quick": {"timeout": 150, "pre": [],
+                         "parts": [(f"p{_t(a)}", f"p1 == {a} and fr == 0 and e1 == 0 and e2 == 0 and p2 in (-24, -9, 0, 3, 24) and -100 < c1 < 100 and -100 < c2 < 100") for a in PVALS] + _NEAR},
+               "thorough": {"timeout": 600, "pre": [],
+                            "parts": [(f"p{_t(a)}_{_t(b)}", f"p1 == {a} and p2 == {b} and fr == 0 and -10**4 < c1 < 10**4 and -10**4 < c2 < 10**4 and -2 <= e1 <= 2 and -2 <= e2 <= 2") for a in PVALS for b in PVALS] + _NEAR}},
         sample=(1, 0, 9, 0, 0, -9, 0), real_twin=_cr,
-        bounds="quick: |c| < 100, e = 0, 21 x 5 prefix pairs; thorough: |c| < 10^4, e in [-2,2], all 441 ordered prefix pairs",
+        bounds="quick: |c| < 100, e = 0, 21 x 5 prefix pairs; thorough: |c| < 10^4, e in [-2,2], all 441 ordered prefix pairs; both: near-equal operands (value 1 +- k*10^-20 / 10^-21 / 10^-23 of the smaller prefix, |k| < 40) on 4 prefix pairs",
         generalises="both mantissas as integers", outside="larger mantissas")(compare_total)
 
 
